@@ -363,6 +363,23 @@ def diamond_worlds():
         yield {'f0.cellml': fa, 'f1.cellml': fb, 'f2.cellml': model([copy.deepcopy(a), copy.deepcopy(b)]), 'f3.cellml': model([U('u0'), U('u1')])}
 
 
+def relay_worlds():
+    """A imports a component from B which is itself an import (from C) that encapsulates components of B: their units
+    (leaf, import from D, import of something D lacks, missing in B), their own imports (from C, from D, back from B) and
+    the shape of what C offers vary"""
+    import copy
+    ku = [('leaf', U('u')), ('imp', U('u', imp=('f3.cellml', 'u0'))), ('impmissing', U('u', imp=('f3.cellml', 'u7'))), ('absent', None), ('impfile', U('u', imp=('f9.cellml', 'u0')))]
+    kid_kinds = [('plain', None), ('imp-c', ('f2.cellml', 'c1')), ('imp-d', ('f3.cellml', 'c0')), ('imp-back', ('f1.cellml', 'b')), ('imp-none', ('f3.cellml', 'c7'))]
+    cshapes = [[C('c0'), C('c1')], [C('c0', kids=[C('cc', units=['u0'])]), C('c1')], [C('c0', imp=('f3.cellml', 'c0')), C('c1')]]
+    for (un, u), (kn, kimp), cs, two in itertools.product(ku, kid_kinds, cshapes, (False, True)):
+        kids = [C('k', units=['u', 'second'])] if kimp is None else [C('k', imp=kimp)]
+        if two:
+            kids.append(C('k2', kids=[C('k3', units=['u'])]))
+        fb = model([copy.deepcopy(u)] if u else [], [C('b', imp=('f2.cellml', 'c0'), kids=kids), C('other')])
+        yield {'f0.cellml': model([], [C('a', imp=('f1.cellml', 'b'))]), 'f1.cellml': fb,
+               'f2.cellml': model([U('u0')], copy.deepcopy(cs)), 'f3.cellml': model([U('u0')], [C('c0', units=['u0'])])}
+
+
 def random_world(rng, nfiles=None, cyclic=0.15):
     nfiles = nfiles or rng.randint(2, 5)
     files = ['f%d.cellml' % i for i in range(nfiles)]
